@@ -416,3 +416,83 @@ Proof.
   intros H. di_split H. destruct Hr as (tail & Hr1 & _).
   eapply prefix_trans; [apply prefix_app|]. rewrite Hr1. apply prefix_bytes_firstn.
 Qed.
+
+(* ---- a data segment never meets a full channel --------------------------------------- *)
+
+Lemma ndata_seg_all l : (forall s, In s l -> s <> Fin) -> ndata_seg l = length l.
+Proof.
+  unfold ndata_seg. induction l as [|a l IH]; intros H; cbn; [reflexivity|].
+  destruct a as [bs|]; cbn; [f_equal; apply IH; intros s Hs; apply H; now right|].
+  exfalso. apply (H Fin); [now left|reflexivity].
+Qed.
+
+Lemma ndata_buf_pos b q bs : In (q, Data bs) b -> 1 <= ndata_buf b.
+Proof.
+  unfold ndata_buf. induction b as [|[q' s'] b IH]; cbn; [tauto|].
+  intros [[= -> ->]|H]; cbn; [lia|]. specialize (IH H). destruct (is_data s'); cbn; lia.
+Qed.
+
+Lemma DI_full_fin sent next wire rdy b r chan rd pop read c wr lost cutf cap sg :
+  DI sent next wire rdy (Some (b, r)) chan rd pop read c wr lost cutf cap ->
+  rd <> None -> lookup (r + 1)%N b = Some sg -> length chan = cap -> sg = Fin.
+Proof.
+  intros H Hrd Hlk Hfull. di_split H.
+  pose proof (Hq b r eq_refl Hrd) as Hr0.
+  assert (Hat : nth_error sent (pop + length chan) = Some sg).
+  { apply lookup_in in Hlk. apply (Hbf _ _) in Hlk as (i & Hi & Hnth).
+    replace (pop + length chan) with i by lia. exact Hnth. }
+  assert (Hlt : pop + length chan < length sent) by (apply nth_error_Some; congruence).
+  destruct Hc as [rest Hc].
+  assert (Hall : forall s, In s chan -> s <> Fin).
+  { intros s Hin ->. apply In_nth_error in Hin as [j Hj].
+    assert (Hjl : j < length chan) by (apply nth_error_Some; congruence).
+    pose proof (nth_error_skipn sent pop j) as E. rewrite Hc, nth_error_app1, Hj in E by exact Hjl.
+    symmetry in E. apply Hf in E. lia. }
+  destruct sg as [bs|]; [|reflexivity]. exfalso.
+  apply lookup_in in Hlk. apply ndata_buf_pos in Hlk. cbn [rx_buf] in Hcr.
+  rewrite (ndata_seg_all _ Hall) in Hcr. lia.
+Qed.
+
+(* ---- completeness: no deadlock and EOF means everything was read --------------------- *)
+
+Lemma fin_index sent i : (forall j, nth_error sent j = Some Fin -> S j = length sent) ->
+  In Fin (firstn i sent) -> length sent <= i.
+Proof.
+  intros Hf Hin. apply In_nth_error in Hin as [j Hj].
+  assert (Hjl : j < length (firstn i sent)) by (apply nth_error_Some; congruence).
+  rewrite firstn_length in Hjl.
+  assert (E : nth_error sent j = Some Fin).
+  { rewrite <- (firstn_skipn i sent). rewrite nth_error_app1; [exact Hj|]. rewrite firstn_length. lia. }
+  apply Hf in E. lia.
+Qed.
+
+(* a reader that is not at EOF and has nothing stashed finds a segment queued *)
+Lemma DI_no_pending sent next wire rdy b r rr pop read c wr cutf cap :
+  DI sent next wire rdy (Some (b, r)) [] (Some rr) pop read c wr false cutf cap ->
+  closed rr = false -> In Fin sent ->
+  (forall q sg, ~ In (PSeg q sg) (wire ++ rdy)) ->
+  (lookup (r + 1)%N b <> None -> 0 = cap) -> 0 < cap -> False.
+Proof.
+  intros H Hcl0 Hfin Hq0 Hex Hcap. di_split H.
+  pose proof (Hq b r eq_refl ltac:(discriminate)) as Hr0. cbn in Hr0. rewrite Nat.add_0_r in Hr0.
+  assert (Hlt : pop < length sent).
+  { destruct (Nat.lt_ge_cases pop (length sent)) as [Hl|Hge]; [exact Hl|].
+    exfalso. rewrite firstn_all2 in Hcl by exact Hge. apply (Hcl rr eq_refl) in Hfin. congruence. }
+  destruct (Ha eq_refl b r eq_refl pop Hlt) as [H1|[H1|[sg H1]]].
+  - lia.
+  - replace (N.of_nat (S pop)) with (r + 1)%N in H1 by lia. apply Hex in H1. lia.
+  - eapply Hq0; eauto.
+Qed.
+
+Lemma DI_eof sent next wire rdy rx chan rr pop read c wr lost cutf cap :
+  DI sent next wire rdy rx chan (Some rr) pop read c wr lost cutf cap ->
+  closed rr = true -> read = bytes_of sent.
+Proof.
+  intros H Hcl1. di_split H.
+  destruct Hr as (tail & Hr1 & Hr2). specialize (Hr2 rr eq_refl).
+  assert (Hs : stash rr = None).
+  { destruct (stash rr) as [bs|] eqn:E; [|reflexivity]. destruct (Hst rr bs eq_refl E). congruence. }
+  unfold stash_bytes in Hr2. rewrite Hs in Hr2. subst tail. rewrite app_nil_r in Hr1.
+  apply (Hcl rr eq_refl) in Hcl1. apply fin_index in Hcl1; [|exact Hf].
+  rewrite firstn_all2 in Hr1 by exact Hcl1. exact Hr1.
+Qed.
